@@ -134,6 +134,7 @@ theorem declOk_of_valid (scope : List Str) (kv : Str × Str) (hb : noBr kv.1 = t
         have hk : "xmlns".toList ++ ':' :: l = xmlnsColon ++ l := by simp [xmlnsColon]
         rw [hk]; exact startsWith_self_append _ _
       simp only [pyDeclOk, h1, Bool.and_eq_true] at hd
+      replace hd := hd.1
       rcases hf with hf | hf
       · rw [hs] at hf; simp at hf
       · have hlx : (l == "xml".toList) = false := by
@@ -154,7 +155,7 @@ theorem declsOk_of_validDoc : ∀ (n : Node) (sc : List Str), validDoc sc n = tr
     simp only [validDoc, Bool.and_eq_true] at h
     simp only [noBrTree, Bool.and_eq_true] at hb
     simp only [noReserved, Bool.and_eq_true] at hr
-    obtain ⟨⟨⟨hd, _⟩, ha⟩, hk⟩ := h
+    obtain ⟨⟨⟨⟨hd, ht⟩, ha⟩, hk⟩, hel⟩ := h
     simp only [normAttrs, declsOk, Bool.and_eq_true]
     refine ⟨⟨hr.1.1, ?_⟩, declsOkKids_of_validKids ks _ hk hb.2 hr.2⟩
     simp only [normAttrList, List.all_map]
@@ -175,25 +176,93 @@ theorem declsOkKids_of_validKids : ∀ (ks : List Node) (sc : List Str), validKi
     exact ⟨declsOk_of_validDoc k sc h.1 hb.1 hr.1, declsOkKids_of_validKids ks sc h.2 hb.2 hr.2⟩
 end
 
+/-! ## since the repair of F2b-reserved / F3x the validation pass itself establishes `noReserved` -/
+
+theorem normAttrVal_eq_nospace : ∀ (v U : Str), U.all (fun c => c != ' ') = true → normAttrVal v = U → v = U
+  | [], U, _, h => by simpa [normAttrVal] using h
+  | c :: r, U, hU, h => by
+    by_cases hcr : c = '\r' ∧ ∃ r', r = '\n' :: r'
+    · obtain ⟨hc, r', hr⟩ := hcr
+      subst hc; subst hr
+      rw [normAttrVal_cr_lf] at h
+      subst h
+      simp at hU
+    · have hcons := normAttrVal_cons c r (fun h1 r' h2 => hcr ⟨h1, r', h2⟩)
+      rw [hcons] at h
+      cases U with
+      | nil => cases h
+      | cons u us =>
+        injection h with h1 h2
+        simp only [List.all_cons, Bool.and_eq_true, bne_iff_ne] at hU
+        split at h1
+        · exact absurd h1.symm hU.1
+        · subst h1
+          rw [normAttrVal_eq_nospace r us hU.2 h2]
+
+theorem attrFree_of_declOk (kv : Str × Str) (h : pyDeclOk kv = true) : attrFree kv = true := by
+  simp only [pyDeclOk, Bool.and_eq_true, Bool.not_eq_true', Bool.and_eq_false_iff] at h
+  simp only [attrFree, Bool.or_eq_true, Bool.not_eq_true', Bool.and_eq_true, bne_iff_ne]
+  rcases h.2 with h2 | h2
+  · left; simpa [isNsDecl] using h2
+  · right
+    simp only [reservedNs, Bool.or_eq_false_iff, beq_eq_false_iff_ne] at h2
+    exact ⟨fun e => h2.1 (normAttrVal_eq_nospace _ _ (by decide) e),
+           fun e => h2.2 (normAttrVal_eq_nospace _ _ (by decide) e)⟩
+
+theorem tagFree_of_valid (scope : List Str) (t : Str) (hb : noBr t = true) (hn : nameValid scope t = true)
+    (he : elemPrefixOk t = true) : tagFree t = true := by
+  simp only [nameValid, Bool.and_eq_true] at hn
+  rcases isXmlTag_spec t hb hn.1 with hnc | ⟨p, l, hq, hp, hl⟩
+  · have hs := splitOnChar_nosep t hnc.nocolon
+    simp [tagFree, splitQName, hs]
+  · subst hq
+    have hs : splitOnChar ':' (p ++ ':' :: l) = [p, l] := by
+      rw [splitOnChar_join p l hp.nocolon, splitOnChar_nosep l hl.nocolon]
+    rw [elemPrefixOk, partitionColon_join p l hp.nocolon] at he
+    simp only [tagFree, splitQName, hs, bne_iff_ne, ne_eq, Option.some.injEq]
+    intro e
+    subst e
+    simp at he
+
+mutual
+theorem noReserved_of_validDoc : ∀ (n : Node) (sc : List Str), validDoc sc n = true → noBrTree n = true →
+    noReserved n = true
+  | .text _ _, _, _, _ => by simp [noReserved]
+  | .elem t a ks, sc, h, hb => by
+    simp only [validDoc, Bool.and_eq_true] at h
+    simp only [noBrTree, Bool.and_eq_true] at hb
+    obtain ⟨⟨⟨⟨hd, ht⟩, _⟩, hk⟩, hel⟩ := h
+    simp only [noReserved, Bool.and_eq_true]
+    exact ⟨⟨tagFree_of_valid _ t hb.1.1 ht hel, all_imp (fun kv hkv => attrFree_of_declOk kv hkv) hd⟩,
+      noReservedKids_of_validKids ks _ hk hb.2⟩
+theorem noReservedKids_of_validKids : ∀ (ks : List Node) (sc : List Str), validKids sc ks = true →
+    noBrKids ks = true → noReservedKids ks = true
+  | [], _, _, _ => by simp [noReservedKids]
+  | k :: ks, sc, h, hb => by
+    simp only [validKids, Bool.and_eq_true] at h
+    simp only [noBrKids, Bool.and_eq_true] at hb
+    simp only [noReservedKids, Bool.and_eq_true]
+    exact ⟨noReserved_of_validDoc k sc h.1 hb.1, noReservedKids_of_validKids ks sc h.2 hb.2⟩
+end
+
 /-- **C01 as the oracle states it.**  For all survey fields and parts: if the assembled document is
-    accepted by `validate_xml_document`, uses neither `]` in a name (F5) nor the reserved namespace
-    names / the prefix `xmlns` on an element (F2b-reserved, F3x), and the parts are DOM trees, then
+    accepted by `validate_xml_document`, uses no `]` in a name (F5), and the parts are DOM trees, then
     `holds` — *the very function the check evaluates on the implementation's text* — is true of the
     text written in either pretty_print mode: it parses, its namespace declarations are legal, every
     prefix is bound, and it has the ODK skeleton with the form id. -/
 theorem accepted_assembled_holds (f : Fields) (itext : Option (List Node)) (rk rest bk : List Node)
     (hv : validDoc [] (assemble f itext rk rest bk) = true)
     (hb : noBrTree (assemble f itext rk rest bk) = true)
-    (hr : noReserved (assemble f itext rk rest bk) = true)
     (hd : PartsDom itext rk rest bk) (pretty : Bool) :
     holds (renderDoc pretty (assemble f itext rk rest bk)) (normAttrVal f.idString) = true := by
+  have hr := noReserved_of_validDoc _ [] hv hb
   have hwf := wf_of_validDoc _ [] hv hb (isDom_assemble f hd)
   have hpb := pb_of_validDoc _ [] hv hb
   have hdk := declsOk_of_validDoc _ [] hv hb hr
   have hdecl : (htmlAttrs f).all pyDeclOk = true := by
     have h := hv
     simp only [assemble, pyNode, validDoc, Bool.and_eq_true] at h
-    exact h.1.1.1
+    exact h.1.1.1.1
   have hsk := skelE_normAttrs (skelE_assemble f itext rk rest bk (nsOK_of_accepted f hdecl))
   have helem : isElem (assemble f itext rk rest bk) = true := rfl
   unfold holds
@@ -217,13 +286,13 @@ theorem accepted_assembled_holds (f : Fields) (itext : Option (List Node)) (rk r
 
 -- non-vacuity: the example document
 example : holds (renderDoc true (assemble exFields exItext exRootKids exRest exBody)) (normAttrVal exFields.idString) = true :=
-  accepted_assembled_holds exFields _ _ _ _ ex_accepted (by decide +kernel) (by decide +kernel)
+  accepted_assembled_holds exFields _ _ _ _ ex_accepted (by decide +kernel)
     ⟨fun ks h => by cases h; decide +kernel, by decide +kernel, by decide +kernel, by decide +kernel⟩ true
--- the two hypotheses are the open findings: accepted, but the oracle fails
+-- the shapes of the former findings F3x / F2b-reserved are rejected now
 def exF3x : Node := .elem "xmlns:q".toList [] []
-example : validDoc [] exF3x = true ∧ noReserved exF3x = false ∧ declsOk exF3x = false := by decide +kernel
+example : validDoc [] exF3x = false ∧ declsOk exF3x = false := by decide +kernel
 def exF2bR : Node := .elem "a".toList [("xmlns:w".toList, xmlnsNsUri)] []
-example : validDoc [] exF2bR = true ∧ noReserved exF2bR = false ∧ declsOk exF2bR = false := by decide +kernel
+example : validDoc [] exF2bR = false ∧ declsOk exF2bR = false := by decide +kernel
 
 /-! ## attributes cannot clash by expanded name
 
@@ -283,7 +352,7 @@ theorem attributes_distinct_by_local_name (f : Fields) (l : List (Str × Str)) :
   refine ⟨localsNodup_setAttrs _ [] localsNodup_nil, ?_, localsNodup_setAttrs _ [] localsNodup_nil⟩
   unfold rootAttrs
   exact localsNodup_step _ _ _ _ (localsNodup_step _ _ _ _ (localsNodup_step _ _ _ _ (localsNodup_step _ _ _ _
-    (localsNodup_setAttr _ _ _ (localsNodup_setAttrs _ [] localsNodup_nil)))))
+    (localsNodup_setAttr _ _ _ (localsNodup_setAttrs _ _ (localsNodup_setAttrs _ [] localsNodup_nil))))))
 
 #print axioms attributes_distinct_by_local_name
 
